@@ -23,6 +23,21 @@ class Crash(RuntimeError):
     pass
 
 
+class StopCrash(StopIteration):
+    """gamma crash = stopiteration: the unexpected exception is a StopIteration (e.g. a bare next() on an exhausted iterator).  Python
+    itself re-raises it as RuntimeError when it leaves a coroutine or generator (PEP 479), with the original as __cause__: either form
+    is the failure surfacing."""
+
+
+CRASHES = (Crash, StopCrash)
+
+
+def is_crash(exc):
+    if isinstance(exc, CRASHES):
+        return True
+    return isinstance(exc, RuntimeError) and isinstance(exc.__cause__ or exc.__context__, StopCrash)
+
+
 COMPOSITE = ("obj", "lobj")
 
 
@@ -208,6 +223,8 @@ def behave(plan, n):
     # gamma: the class of the unexpected exception - a plain RuntimeError, one of the library's own located errors that is NOT a
     # ResolverError (e.g. what EnumType.get_value raises), or a built-in IndexError (which a careless `except IndexError` swallows)
     kind = (plan.get("variant") or {}).get("crash", "runtime")
+    if kind == "stopiteration":
+        raise StopCrash("crash at %d" % n)
     if kind == "located":
         from py_gql.exc import UnknownEnumValue
 
@@ -628,7 +645,7 @@ def run_custom(plan, beh, rec):
         kw = {"instrumentation": rec.instrumentation(), "middlewares": rec.middlewares()}
     try:
         fut = process_graphql_query(schema, query, runtime=rt, root=rootv, **kw)
-    except Crash as e:
+    except CRASHES as e:
         fut = Deferred()
         fut.set_exception(e)
     except Exception as e:
@@ -677,7 +694,7 @@ def run_pool(plan, beh, rec):
     div = []
     try:
         fut = process_graphql_query(schema, query, runtime=rt, root=rootv, **kw)
-    except Crash as e:
+    except CRASHES as e:
         fut = Future()
         fut.set_exception(e)
     except Exception as e:
@@ -718,7 +735,7 @@ def _follow(plan, beh, fut, pending, complete, settle, tag, started):
     if beh["failed"]:
         if exc is None:
             div.append(("%s/crash-lost" % tag, {"result": repr(fut.result())}))
-        elif not isinstance(exc, Crash):
+        elif not is_crash(exc):
             div.append(("%s/crash-replaced/%s" % (tag, type(exc).__name__), repr(exc)))
         return div
     if exc is not None:
@@ -835,7 +852,7 @@ def run_blocking(plan, beh, rec, executor):
             res = graphql_blocking(schema, query, root=rootv, **kw)
         else:
             res = process_graphql_query(schema, query, root=rootv, **kw)
-    except Crash:
+    except CRASHES:
         return ([] if crashes else [("%s/spurious-crash" % tag, "")]), invoked
     except Exception as e:
         return [("%s/raises/%s" % (tag, type(e).__name__), repr(e))], invoked
@@ -931,9 +948,11 @@ def run_real(plan, beh, rng, which):
             finally:
                 loop.run_until_complete(loop.shutdown_default_executor())
                 loop.close()
-    except Crash:
+    except CRASHES:
         return [] if crashes else [("%s/spurious-crash" % tag, "")]
     except Exception as e:
+        if crashes and is_crash(e):
+            return []
         return [("%s/raises/%s" % (tag, type(e).__name__), repr(e))]
     if crashes:
         return [("%s/crash-lost" % tag, "")]
